@@ -35,7 +35,7 @@ ASSUMPTIONS = [
 ]
 CASES = {'quick': 16000, 'thorough': 220000}
 TIME = {'quick': 70, 'thorough': 560}
-MIN_NONTRIVIAL = {'quick': 4000, 'thorough': 40000}
+MIN_NONTRIVIAL = {'quick': 1500, 'thorough': 15000}
 REQUIRED = ('decisions_checked', 'raise_intervals_probed', 'cap_refusals',
             'covered_refusals', 'nobody_could_call_refusals',
             'short_allin_refusals', 'short_allin_reopened',
